@@ -1026,6 +1026,8 @@ BINDING_SCENARIOS = [
     ('del_in_branch_then_read', 'if d():\n    del v\nr = v'),
     ('del_in_loop_then_read', 'for k9 in n():\n    del v\n    break\nr = v'),
     ('closure_nonlocal_declared_in_block', 'def g():\n    if True:\n        nonlocal v\n        return v\nr = g()'),
+    ('closure_global_and_nonlocal_rebound_in_block', 'def g():\n    global G\n    nonlocal v\n    if d():\n        v = [7]\n    for k8 in n():\n        v = [8]\ng()\nr = v'),
+    ('closure_global_written_nonlocal_rebound', 'def g():\n    global G\n    nonlocal v\n    if d():\n        G = 3\n        v = [G]\ng()\nr = v + [G]'),
     ('closure_global_declared_in_block', 'def g():\n    if True:\n        global G\n        return [G]\nr = g() + v'),
 ]
 
